@@ -77,15 +77,48 @@ impl Step {
     }
 }
 
+/// Lengths from here on exceed 0xFFFFFFFA sectors of 4096 bytes.
+pub const UNREPRESENTABLE_LEN: u64 = 1 << 45;
+
 /// `HWriteTag` with this tag writes zeros (whole sectors of zeros over existing data are a
 /// case of their own for a writer that treats zero sectors specially).
 pub const ZERO_TAG: u64 = u64::MAX;
+/// `HWriteTag` with this tag writes valid UTF-8 text (three-byte characters, so that a
+/// character straddles every power-of-two buffer window).
+pub const UTF8_TAG: u64 = u64::MAX - 1;
+
+/// Which of two equivalent std trait methods a step uses is a pure function of its
+/// arguments and the handle's position, so that every replay makes the same choice:
+/// `seek_relative(d)` for `seek(SeekFrom::Current(d))`.
+pub fn use_seek_relative(d: i64, pos: u64) -> bool {
+    (d as u64 ^ pos) % 2 == 0
+}
+/// `read_to_string` for `read_to_end`.
+pub fn use_read_to_string(len: u64, pos: u64) -> bool {
+    (len + pos) % 2 == 0
+}
 
 /// Payload of the j-th write of a case: never zero, so stale bytes are distinguishable
 /// from zero fill and a read identifies the write it observed.
 pub fn payload(j: u64, len: usize) -> Vec<u8> {
     if j == ZERO_TAG {
         return vec![0u8; len];
+    }
+    if j == UTF8_TAG {
+        // valid UTF-8 of exactly `len` bytes: three-byte characters, ASCII padding
+        let mut s = String::with_capacity(len);
+        let mut k = 0u32;
+        while s.len() + 3 <= len {
+            s.push(char::from_u32(0x3042 + (k % 80)).unwrap_or('\u{3042}'));
+            k += 1;
+            if k % 7 == 0 && s.len() < len {
+                s.push((b'a' + (k % 26) as u8) as char);
+            }
+        }
+        while s.len() < len {
+            s.push('.');
+        }
+        return s.into_bytes();
     }
     (0..len).map(|i| 1 + ((j.wrapping_mul(131).wrapping_add(i as u64 * 7)) % 255) as u8).collect()
 }
@@ -551,7 +584,16 @@ impl Session {
         let result: Result<(), (String, String, String)> = match step {
             Step::HRead { n, .. } => {
                 let mut buf = vec![0u8; *n];
-                match stream.read(&mut buf) {
+                // every third raw read goes through read_vectored with the buffer split in
+                // two slices: the bytes delivered fill the slices in order, without holes
+                let rr = if *n >= 2 && (*n as u64 + h.pos) % 3 == 0 {
+                    let (a, b) = buf.split_at_mut(*n / 3 + 1);
+                    let mut sl = [std::io::IoSliceMut::new(a), std::io::IoSliceMut::new(b)];
+                    stream.read_vectored(&mut sl)
+                } else {
+                    stream.read(&mut buf)
+                };
+                match rr {
                     Ok(k) => {
                         let avail = (data_len - h.pos) as usize;
                         let node = self.model.get(&h.names).unwrap();
@@ -585,10 +627,11 @@ impl Session {
                     }
                     Err(e) => {
                         if *n > avail && e.kind() == ErrorKind::UnexpectedEof {
-                            // position after a failed read_exact is unspecified: adopt it, within [pos, len]
+                            // like read_exact on a byte vector with a cursor (std's default
+                            // implementation): everything up to the end has been consumed
                             let p = stream.stream_position().unwrap_or(u64::MAX);
-                            if p < h.pos || p > data_len {
-                                mk(format!("position within [{}, {}] after failed read_exact", h.pos, data_len), format!("{p}"), "eof | position")
+                            if p != data_len {
+                                mk(format!("position {} (the end) after read_exact ran into the end, as for a byte vector with a cursor", data_len), format!("{p}"), "eof | position")
                             } else {
                                 h.pos = p;
                                 Ok(())
@@ -657,7 +700,10 @@ impl Session {
                     SeekFrom::End(d) => data_len as i128 + *d as i128,
                     SeekFrom::Current(d) => h.pos as i128 + *d as i128,
                 };
-                let r = stream.seek(*from);
+                let r = match from {
+                    SeekFrom::Current(d) if use_seek_relative(*d, h.pos) => stream.seek_relative(*d).and_then(|()| stream.stream_position()),
+                    _ => stream.seek(*from),
+                };
                 let after = stream.stream_position();
                 if target < 0 || target > data_len as i128 {
                     match r {
@@ -679,6 +725,14 @@ impl Session {
                     }
                 }
             }
+            // A length beyond anything a compound file can hold (more sectors than the FAT
+            // can number) has no byte-array counterpart: the call must answer with an error -
+            // not a panic, not an endless allocation - and change nothing.  (A dirty buffer
+            // may be written back by the attempt; the model's content is unaffected by that.)
+            Step::HSetLen { n, .. } if *n >= UNREPRESENTABLE_LEN => match stream.set_len(*n) {
+                Ok(()) => mk("Err(_): no compound file can hold that length".into(), "Ok(())".into(), "refuse:unrepresentable_length | ok"),
+                Err(_) => Ok(()),
+            },
             Step::HSetLen { n, .. } => match stream.set_len(*n) {
                 Ok(()) => {
                     let node = self.model.get_mut(&h.names).unwrap();
@@ -709,6 +763,28 @@ impl Session {
                     Ok(())
                 } else {
                     mk(format!("{data_len}"), format!("{l}"), "ok | value-mismatch")
+                }
+            }
+            Step::HReadToEnd { .. } if use_read_to_string(data_len, h.pos) => {
+                let mut text = String::new();
+                let node = self.model.get(&h.names).unwrap();
+                let rest = node.data[h.pos as usize..].to_vec();
+                let valid = std::str::from_utf8(&rest).is_ok();
+                match stream.read_to_string(&mut text) {
+                    Ok(k) => {
+                        if !valid || k != text.len() || text.as_bytes() != &rest[..] {
+                            mk(if valid { "rest of the stream as text".into() } else { "Err(InvalidData): the rest of the stream is not UTF-8".into() }, format!("Ok({k})"), "read_to_string | ok | value")
+                        } else {
+                            h.pos = data_len;
+                            Ok(())
+                        }
+                    }
+                    Err(e) if e.kind() == ErrorKind::InvalidData && !valid => {
+                        // the default implementation reads to the end first, then validates
+                        h.pos = data_len;
+                        Ok(())
+                    }
+                    Err(e) => mk(if valid { "Ok(n)".into() } else { "Err(InvalidData)".into() }, format!("Err({:?}: {e})", e.kind()), "read_to_string | err"),
                 }
             }
             Step::HReadToEnd { .. } => {
